@@ -97,7 +97,7 @@ func setupGenStubs() map[string]string {
 	extra := map[string]string{
 		"Gen_Clean.tla":      "---- MODULE Gen_Clean ----\nGenAlphabet == {\"/\"}\nGenPrefixLen == 1\nGenSuffixLen == 1\n====\n",
 		"Gen_Pattern.tla":    "---- MODULE Gen_Pattern ----\nGenAlphabet == {\"/\"}\nGenPrefixLen == 1\nGenSuffixLen == 1\nGenLimits == << <<1, 1>> >>\nGenParamValues == { <<\"a\">> }\nGenCatchValues == { <<\"a\">> }\n====\n",
-		"Gen_Writer.tla":     "---- MODULE Gen_Writer ----\nGenCaps == {}\nGenCodes == {200}\nGenWriteSizes == { <<1,1>> }\nGenReadFroms == { <<1,1,1>> }\nGenMaxCalls == 1\nGenHelperCodes == {}\n====\n",
+		"Gen_Writer.tla":     "---- MODULE Gen_Writer ----\nGenCaps == {}\nGenCodes == {200}\nGenWriteSizes == { <<1,1>> }\nGenReadFroms == { <<1,1,1>> }\nGenMaxCalls == 1\nGenHelperCodes == {}\nGenRedirectCodes == {}\n====\n",
 		"Gen_Middleware.tla": "---- MODULE Gen_Middleware ----\nGenScopes == << {\"route\"} >>\nGenMaxGlobal == 1\n====\n",
 		"Gen_Options.tla":    "---- MODULE Gen_Options ----\nGenGlobalOpts == { <<\"ign\", TRUE>> }\nGenRouteOpts == { <<\"ign\", TRUE>> }\nGenMaxGlobal == 1\nGenMaxRoute == 1\nGenAnnKeys == {\"k1\"}\nGenAnnKeySeq == <<\"k1\">>\nGenBadKeys == {}\nGenPatterns == << <<\"/\">> >>\n====\n",
 		"Gen_Logger.tla":     "---- MODULE Gen_Logger ----\nGenDid == { <<\"nothing\">> }\n====\n",
@@ -109,7 +109,7 @@ func setupGenStubs() map[string]string {
 		"Gen_ObsMatch.tla":   "---- MODULE Gen_ObsMatch ----\nGenPool == << <<\"/\">> >>\nGenTables == << {1} >>\n====\n",
 		"Gen_Radix.tla":      "---- MODULE Gen_Radix ----\nGenPool == << <<\"/\">> >>\nGenMaxRoutes == 1\n====\n",
 		"Gen_Lookup.tla":     "---- MODULE Gen_Lookup ----\nGenPool == << <<\"/\">> >>\nGenPaths == << <<\"/\">> >>\nGenHosts == << <<\"a\">> >>\nGenMaxTab == 1\nGenEnumN == 1\nGenExtraTables == {}\nGenFixes == {}\nGenCollect == FALSE\n====\n",
-		"Gen_Cow.tla":        "---- MODULE Gen_Cow ----\nGenPool == << <<\"/\">> >>\nGenMaxRoutes == 1\nGenMaxSnaps == 1\nGenMaxHist == 1\nGenVariant == \"none\"\n====\n",
+		"Gen_Cow.tla":        "---- MODULE Gen_Cow ----\nGenPool == << <<\"/\">> >>\nGenMaxRoutes == 1\nGenMaxSnaps == 1\nGenMaxHist == 1\nGenVariant == \"none\"\nGenKinds == {\"Insert\"}\n====\n",
 		"Gen_Roots.tla":      "---- MODULE Gen_Roots ----\nGenCommon == <<\"GET\">>\nGenCustom == {\"FOO\"}\nGenMaxCnt == 1\nGenVariant == \"none\"\n====\n",
 		"trace.ndjson":       "",
 		"obs.ndjson":         "",
